@@ -1,8 +1,7 @@
-(* C03 (and the weight clauses of C02): dataset fractions, stacked ratio,
-   multi-dataset composition — real-number reading. *)
+(* C03: dataset fractions and the multi-dataset sum — real-number reading.
+   (The differentiation rules that used to live here are in P_WeightsDeriv.v.) *)
 From Coq Require Import Reals ZArith List Bool Lra Lia Permutation.
-From Coquelicot Require Import Coquelicot.
-From Sky Require Import Num NumR G_llh M_Llh S_Llh P_Llh P_LlhValue P_LlhDeriv.
+From Sky Require Import Num NumR G_weights M_Weights S_Llh S_Weights P_WeightsBase.
 Import ListNotations.
 Open Scope R_scope.
 
@@ -107,77 +106,62 @@ Section W.
     rewrite (Rsum_perm r r' Hr). f_equal. exact IH.
   Qed.
 
-  (* C02.4: quotient rule for f_j; a_j(p), a(p) arbitrary differentiable *)
-  Theorem f_j_quotient_rule (aj a : R -> R) (p0 daj da : R) :
-    is_derive aj p0 daj -> is_derive a p0 da -> a p0 <> 0 ->
-    is_derive (fun p => k_f_j Nm (aj p) (a p)) p0 (k_f_j_grad Nm daj (a p0) (aj p0) da).
+  Lemma f_j_length (a : list (list R)) : length (f_j Nm a) = length a.
+  Proof. unfold f_j, a_j. now rewrite !map_length. Qed.
+
+  Theorem f_j_le1 (a : list (list R)) :
+    List.Forall (List.Forall (fun x => 0 <= x)) a -> 0 < Rsum (map Rsum a) ->
+    List.Forall (fun f => f <= 1) (f_j Nm a).
   Proof.
-    intros Haj Ha Hne.
-    apply (is_derive_ext (fun p => aj p / a p)); [intros p; reflexivity|].
-    rewrite K_f_j_grad.
-    auto_derive; [repeat split; [exists daj; exact Haj|exists da; exact Ha|exact Hne]|].
-    replace (Derive (fun x : R => aj x) p0) with daj
-      by (symmetry; apply is_derive_unique; exact Haj).
-    replace (Derive (fun x : R => a x) p0) with da
-      by (symmetry; apply is_derive_unique; exact Ha).
-    field. exact Hne.
+    intros Hnn Hpos.
+    pose proof (f_j_nonneg a Hnn Hpos) as H0.
+    pose proof (f_j_sum1 a (Rgt_not_eq _ _ Hpos)) as H1.
+    revert H0 H1. generalize (f_j Nm a). intros l H0 H1.
+    assert (G : forall l, List.Forall (fun f => 0 <= f) l ->
+                List.Forall (fun f => f <= Rsum l) l).
+    { clear. induction 1 as [|x l Hx Hl IH]; constructor.
+      - unfold Rsum. cbn [fold_right]. pose proof (Rsum_nonneg l Hl) as P. unfold Rsum in P. lra.
+      - eapply List.Forall_impl; [|exact IH]. cbn beta. intros y Hy.
+        unfold Rsum in *. cbn [fold_right]. lra. }
+    specialize (G l H0). rewrite H1 in G. exact G.
   Qed.
 
-  (* ---- PDF-ratio differentiation rules (C02.4) *)
-  Theorem sob_quotient_rule (s b : R -> R) (p0 ds db : R) :
-    is_derive s p0 ds -> is_derive b p0 db -> 0 < b p0 ->
-    is_derive (fun p => s p / b p) p0 (sob_grad_both Nm (s p0) ds (b p0) db).
+  (* ---- the manual's un-simplified expression *)
+  Lemma map_nth_seq (row : list R) :
+    map (fun k => nth k row 0) (seq 0 (length row)) = row.
   Proof.
-    intros Hs Hb Hpos. unfold sob_grad_both. rewrite K_sob_mask, K_sob_grad_both.
-    unfold Rltb. destruct (Rlt_dec 0 (b p0)); [|lra].
-    auto_derive; [repeat split; [exists ds; exact Hs|exists db; exact Hb|lra]|].
-    replace (Derive (fun x : R => s x) p0) with ds by (symmetry; apply is_derive_unique; exact Hs).
-    replace (Derive (fun x : R => b x) p0) with db by (symmetry; apply is_derive_unique; exact Hb).
-    field. lra.
+    induction row as [|x row IH]; [reflexivity|].
+    cbn [length seq map nth]. f_equal.
+    rewrite <- seq_shift, map_map. exact IH.
   Qed.
 
-  Theorem sob_sig_rule (s : R -> R) (b p0 ds : R) :
-    is_derive s p0 ds -> 0 < b ->
-    is_derive (fun p => s p / b) p0 (sob_grad_sig Nm ds b).
+  Theorem f_j_is_manual (a : list (list R)) (K : nat) :
+    List.Forall (fun row => length row = K) a ->
+    (forall k, (k < K)%nat -> colsum a k <> 0) -> total a <> 0 ->
+    f_j Nm a = map (f_j_manual a K) a.
   Proof.
-    intros Hs Hpos. unfold sob_grad_sig. rewrite K_sob_mask, K_sob_grad_sig.
-    unfold Rltb. destruct (Rlt_dec 0 b); [|lra].
-    auto_derive; [exists ds; exact Hs|].
-    replace (Derive (fun x : R => s x) p0) with ds by (symmetry; apply is_derive_unique; exact Hs).
-    field. lra.
+    intros Hrect Hcol Htot. rewrite f_j_R. apply map_ext_in. intros row Hin.
+    rewrite List.Forall_forall in Hrect. specialize (Hrect row Hin).
+    unfold f_j_manual, f_src, f_ds_given_src. fold (total a).
+    rewrite (map_ext_in _ (fun k => nth k row 0 / total a)).
+    - rewrite <- (map_map (fun k => nth k row 0) (fun x => x / total a)).
+      rewrite Rsum_map_div. rewrite <- Hrect, map_nth_seq. reflexivity.
+    - intros k Hk. apply in_seq in Hk. field. repeat split; first [exact Htot | apply Hcol; lia].
   Qed.
 
-  Theorem sob_bkg_rule (s : R) (b : R -> R) (p0 db : R) :
-    is_derive b p0 db -> 0 < b p0 ->
-    is_derive (fun p => s / b p) p0 (sob_grad_bkg Nm s (b p0) db).
-  Proof.
-    intros Hb Hpos. unfold sob_grad_bkg. rewrite K_sob_mask, K_sob_grad_bkg.
-    unfold Rltb. destruct (Rlt_dec 0 (b p0)); [|lra].
-    auto_derive; [split; [exists db; exact Hb|lra]|].
-    replace (Derive (fun x : R => b x) p0) with db by (symmetry; apply is_derive_unique; exact Hb).
-    field. lra.
-  Qed.
+  Theorem f_j_is_simplified (a : list (list R)) :
+    f_j Nm a = map (f_j_simplified a) a.
+  Proof. rewrite f_j_R. reflexivity. Qed.
 
-  (* events with zero background: constant ratio, gradient 0 *)
-  Theorem sob_zero_bkg_grad s ds b db :
-    ~ 0 < b ->
-    sob_grad_both Nm s ds b db = 0 /\ sob_grad_sig Nm ds b = 0 /\ sob_grad_bkg Nm s b db = 0.
+  (* where the manual's un-simplified expression is 0/0 (a source without yield in
+     any dataset) the code's expression is still the partition of unity *)
+  Lemma manual_undefined_code_defined :
+    let a := [[1; 0]; [3; 0]] in
+    colsum a 1 = 0 /\ f_j Nm a = [1 / 4; 3 / 4].
   Proof.
-    intros H. unfold sob_grad_both, sob_grad_sig, sob_grad_bkg. rewrite K_sob_mask.
-    unfold Rltb. destruct (Rlt_dec 0 b); [lra|]. repeat split.
-  Qed.
-
-  Theorem product_rule (r1 r2 : R -> R) (p0 d1 d2 : R) :
-    is_derive r1 p0 d1 -> is_derive r2 p0 d2 ->
-    is_derive (fun p => prod_ratio Nm (r1 p) (r2 p)) p0
-              (prod_grad_both Nm (r1 p0) (r2 p0) d1 d2).
-  Proof.
-    intros H1 H2. unfold prod_grad_both. rewrite K_prod_grad_both.
-    apply (is_derive_ext (fun p => r1 p * r2 p)); [intros p; reflexivity|].
-    auto_derive; [split; [exists d1; exact H1|split; [exists d2; exact H2|trivial]]|].
-    replace (Derive (fun x : R => r1 x) p0) with d1 by (symmetry; apply is_derive_unique; exact H1).
-    replace (Derive (fun x : R => r2 x) p0) with d2 by (symmetry; apply is_derive_unique; exact H2).
-    ring.
+    cbv zeta. split.
+    - unfold colsum, Rsum. cbn. lra.
+    - rewrite f_j_R. unfold Rsum. cbn. f_equal; [|f_equal]; f_equal; lra.
   Qed.
 
   (* ---- C03: the multi-dataset value is the sum of the single-dataset values
@@ -199,47 +183,4 @@ Section W.
     rewrite !C. apply Rsum_perm. apply Permutation_map. exact HP.
   Qed.
 
-  (* C02.5: d/dns of the multi-dataset value *)
-  Lemma multi_grad_ns_sum opa ns f (ds : list (R * list R)) :
-    multi_grad_ns Nm opa ns f ds =
-    Rsum (map (fun p => evaluate_grad_ns Nm opa (fst (snd p)) (ns * fst p) (snd (snd p)) * fst p)
-              (combine f ds)).
-  Proof.
-    unfold multi_grad_ns.
-    generalize (combine f ds). intros l.
-    assert (G : forall acc,
-      fold_left (fun acc0 p => k_multi_grad_ns Nm acc0
-          (evaluate_grad_ns Nm opa (fst (snd p)) (k_nsf Nm ns (fst p)) (snd (snd p))) (fst p)) l acc
-      = acc + Rsum (map (fun p => evaluate_grad_ns Nm opa (fst (snd p)) (ns * fst p) (snd (snd p)) * fst p) l)).
-    { induction l as [|p l IH]; intros acc; cbn [fold_left map]; [cbn; lra|].
-      rewrite IH, K_multi_grad_ns, K_nsf. unfold Rsum. cbn [fold_right]. lra. }
-    rewrite G. cbn [nzero RNum]. lra.
-  Qed.
-
-  Theorem multi_value_ns_derive opa ns f (ds : list (R * list R)) :
-    0 < opa ->
-    List.Forall (fun p => fst (snd p) <> 0 /\ 0 < 1 - ns * fst p / fst (snd p)
-                     /\ List.Forall (fun r => ns * fst p * Xof (fst (snd p)) r <> opa - 1) (snd (snd p)))
-           (combine f ds) ->
-    is_derive (fun t => multi_value Nm opa t f ds) ns (multi_grad_ns Nm opa ns f ds).
-  Proof.
-    intros Hopa H. rewrite multi_grad_ns_sum.
-    apply (is_derive_ext
-             (fun t => Rsum (map (fun g => g t)
-                (map (fun p => fun t => evaluate_value Nm opa (fst (snd p)) (t * fst p) (snd (snd p)))
-                     (combine f ds))))).
-    { intros t. rewrite multi_value_additive, map_map. reflexivity. }
-    apply Rsum_derive.
-    induction H as [|p l (HN & Hpos & Hthr) _ IH]; cbn [map]; constructor; [|exact IH].
-    (* chain rule through t |-> t * f_j *)
-    replace (evaluate_grad_ns Nm opa (fst (snd p)) (ns * fst p) (snd (snd p)) * fst p)
-      with (scal (fst p) (evaluate_grad_ns Nm opa (fst (snd p)) (ns * fst p) (snd (snd p))))
-      by (unfold scal; cbn; unfold mult; cbn; ring).
-    apply (is_derive_comp (fun u => evaluate_value Nm opa (fst (snd p)) u (snd (snd p)))
-                          (fun t => t * fst p) ns
-                          (evaluate_grad_ns Nm opa (fst (snd p)) (ns * fst p) (snd (snd p)))
-                          (fst p)).
-    - apply value_ns_derive; assumption.
-    - auto_derive; [trivial|]. ring.
-  Qed.
 End W.
